@@ -72,11 +72,15 @@ type frame struct {
 	defers   []deferred
 	lockEv   []string
 	callLog  map[string][][]Val // arguments of the calls made so far, by callee name
+	ranges   map[*ssa.Range]*rangeInfo
 }
 
 type deferred struct {
-	cond string
-	call *ssa.Defer
+	cond   string
+	call   *ssa.Defer
+	fnv    Val
+	args   []Val
+	inLoop bool
 }
 
 func (u *Unit) newFrame(fn *ssa.Function, depth int, parentWs []map[string]bool) *frame {
